@@ -210,7 +210,8 @@ def run(ctx, widen=False):
     # second family (structure only): ports whose declared size is the bare name of one of the routine's own local variables,
     # parameters named like resources, empty registers — shapes on which a value-level reading is ambiguous but the structure is not
     pipeline.run_stream(ctx, __name__, range(base + 60000, base + 60000 + n // 2),
-                        extra={"p_rep": 0.2, "p_passthrough": 0.3, "p_port_local_clash": 0.3, "p_zero_size": 0.15, "p_through": 0.3})
+                        extra={"p_rep": 0.2, "p_passthrough": 0.3, "p_port_local_clash": 0.3, "p_zero_size": 0.15, "p_through": 0.3, "p_twin_leaf": 0.6,
+                               "leaf_inputs": [0, 0, 1, 2]})
 
 
 def replay(payload):
